@@ -138,6 +138,67 @@ func c03(x *runCtx) {
 		}
 		c03Cuts(x, r, c)
 	}
+	for _, c := range cfgs {
+		c03RefusedDone(x, c)
+	}
+}
+
+// c03RefusedDone: a TO2 that is honest up to and including the service-info rounds and then sends a Done the
+// owner must refuse (the ProveDevice nonce of no session, of another session; a malformed body). The owner has
+// not accepted Done, so its voucher store must be exactly as before.
+func c03RefusedDone(x *runCtx, c c03Config) {
+	for _, fault := range []string{"nonce-of-no-session", "nonce-of-other-session", "malformed"} {
+		rw := newRawWorldWith(c.k, protocol.X509KeyEnc, 2, c.reuse, c.suite, c.cipher)
+		guid := rw.devs[1].d.Cred.GUID
+		before, _ := rw.mem.VoucherBytes(guid)
+		hello := baseReq(0, 60)
+		hello.Tok, hello.Dev = "n", 1
+		var trace []string
+		send := func(q rawReq) rawResp {
+			res := rw.send(q)
+			trace = append(trace, fmt.Sprintf("%d→%s", q.Typ, res.String()))
+			return res
+		}
+		send(hello)
+		send(hello) // a second session: source of a foreign nonce
+		q := baseReq(0, 64)
+		rw.lastXb++
+		q.Dev, q.NonceOf, q.Signer, q.Xb = 1, 0, 1, rw.lastXb
+		if res := send(q); res.typ != 65 {
+			fatal("honest ProveDevice refused: %v", res)
+		}
+		for _, t := range []int{66, 68, 68, 68} {
+			q := baseReq(0, t)
+			q.EncS, q.EncX, q.Hmac = 0, rw.lastXb, !c.reuse
+			q.Dm = t == 68 && !strings.Contains(strings.Join(trace, " "), "68→")
+			if res := send(q); res.typ != t+1 {
+				fatal("honest message %d refused: %v", t, res)
+			}
+		}
+		done := baseReq(0, 70)
+		done.EncS, done.EncX = 0, rw.lastXb
+		switch fault {
+		case "nonce-of-no-session":
+			done.NonceOf = -1
+		case "nonce-of-other-session":
+			done.NonceOf = 1
+		case "malformed":
+			done.NonceOf, done.Wf, done.Variant = 0, false, "wrongtype"
+		}
+		res := send(done)
+		input := fmt.Sprintf("%s refused Done (%s): %s", c, fault, strings.Join(trace, " "))
+		x.r.Case(input, true, "refused-done")
+		after, _ := rw.mem.VoucherBytes(guid)
+		switch {
+		case res.panic != "":
+			x.r.Violate(rep.Violation{Kind: "panic", Check: "C03.refused-done", Signature: "C03.panic:refused-done:" + fault, Input: input, Impl: res.panic, PropertyFails: true})
+		case res.typ == 71:
+			x.r.Violate(rep.Violation{Kind: "oracle", Check: "C03.refused-done", Signature: "C03.done-accepted-although:" + fault, Input: input, Impl: res.String(), PropertyFails: true})
+		case !bytes.Equal(before, after) || res.effs != "-" || len(rw.mem.VoucherGUIDs()) != 2:
+			x.r.Violate(rep.Violation{Kind: "oracle", Check: "C03.refused-done", Signature: "C03.voucher-store-changed-by-refused-done:" + fault, Input: input,
+				Impl: fmt.Sprintf("%s; stored voucher unchanged=%v; vouchers in store=%d", res.String(), bytes.Equal(before, after), len(rw.mem.VoucherGUIDs())), PropertyFails: true})
+		}
+	}
 }
 
 func c03History(x *runCtx, r *rand.Rand, c c03Config) {
